@@ -10,6 +10,7 @@ mod c09;
 mod c10;
 mod c11;
 mod c13;
+mod c15;
 mod c17;
 mod smoke;
 
@@ -22,6 +23,7 @@ fn main() {
         "c10" => c10::run(&args, &mut rep),
         "c11" => c11::run(&args, &mut rep),
         "c13" => c13::run(&args, &mut rep),
+        "c15" => c15::run(&args, &mut rep),
         "c17" => c17::run(&args, &mut rep),
         "smoke" => smoke::run(&args, &mut rep),
         "c02" => c02::run(&args, &mut rep),
